@@ -1,6 +1,8 @@
 SPECIFICATION Spec
 CONSTANTS MaxVar = 4
+  Depth = 0
   Discipline = FALSE
 PROPERTY Fresh
 CONSTRAINT Bounded
+VIEW ModelView
 CHECK_DEADLOCK FALSE
